@@ -20,7 +20,7 @@ RULE = ('Hypothesis: texts as separator/word sequences (words incl. regex metach
         'non-trivial = at least one rule matches AND some matching rule has a replacement whose length differs from the matched phrase; distinct by (text, map, rules)')
 RULE += ' Additions: integration runs with the main language given or left at its default, rules passed as list or read from a file by read_replacements() (last line with / without line end).'
 ASSUMPTIONS = [
-    'rule lines without & are not generated (the statement does not define them)',
+    'a rule line without & is generated as the last rule of a sixth of the lists; the documentation does not define it, so both readings are accepted: the whole line is a phrase with an empty replacement (what the code does; boundary and position rules as stated) or the line is ignored',
     'position lists are lists of integers as tex2txt produces them',
     'reference matcher (30 lines) written from the statement; word character = alphanumeric or underscore (Python re semantics of \\b)',
 ]
@@ -43,6 +43,8 @@ rule_s = st.tuples(st.lists(lhs_w, min_size=0, max_size=3),
 
 def mkline(r):
     l, rr, c, sp = r
+    if rr is None:                  # line without '&': de facto the whole line is the phrase, with an empty replacement
+        return sp.join(l) + c + '\n'
     return sp.join(l + ['&'] + rr) + c + '\n'
 
 
@@ -75,7 +77,7 @@ def match_at(txt, i, lhs):
 def ref_one(txt, pos, lhs, rhs, stat=None):
     if not lhs:
         return txt, pos
-    repl = ' '.join(rhs)
+    repl = ' '.join(rhs or [])
     out_t = []
     out_p = []
     i = 0
@@ -102,15 +104,17 @@ def ref_one(txt, pos, lhs, rhs, stat=None):
     return ''.join(out_t), out_p
 
 
-def ref_all(txt, pos, rules, stat=None):
+def ref_all(txt, pos, rules, stat=None, skip_noamp=False):
     for l, rr, c, sp in rules:
+        if rr is None and skip_noamp:
+            continue
         txt, pos = ref_one(txt, pos, l, rr, stat)
     return txt, pos
 
 
 def check_direct(txt, pos, rules, stat=None):
     lines = [mkline(r) for r in rules]
-    case = {'mode': 'direct', 'text': txt, 'pos': list(pos), 'rules': [list(map(list, r[:2])) + list(r[2:]) for r in rules]}
+    case = {'mode': 'direct', 'text': txt, 'pos': list(pos), 'rules': [[list(r[0]), None if r[1] is None else list(r[1])] + list(r[2:]) for r in rules]}
     try:
         with watchdog(20):
             t, p = sut.yutils.replace_phrases(txt, list(pos), lines)
@@ -119,6 +123,12 @@ def check_direct(txt, pos, rules, stat=None):
     if len(t) != len(p):
         raise Violation('length-mismatch', case, {'text': t, 'map': p})
     et, ep = ref_all(txt, list(pos), rules, stat)
+    if any(r[1] is None for r in rules) and (t, list(p)) != (et, ep):
+        # a line without '&' is not defined by the documentation: deleting the phrase (what the code does) and
+        # ignoring the line are both accepted; the boundary and position rules apply to either reading
+        et2, ep2 = ref_all(txt, list(pos), rules, None, skip_noamp=True)
+        if (t, list(p)) == (et2, ep2):
+            return
     if t != et:
         raise Violation('text-differs', case, {'lines': lines, 'expected': et, 'actual': t})
     if list(p) != ep:
@@ -221,6 +231,8 @@ def run_shard(ctx):
                 if draw(st.integers(0, 5)) == 0:
                     r = (r[0], list(r[0])) + r[2:]      # identity rule: only normalises white space
             rules.append(r)
+        if rules[-1][0] and draw(st.integers(0, 5)) == 0:
+            rules[-1] = (rules[-1][0], None) + rules[-1][2:]       # at most one line without '&' (the last one)
         pos = draw(st.lists(st.integers(1, 60), min_size=len(txt), max_size=len(txt)))
         return txt, rules, pos
 
@@ -229,7 +241,7 @@ def run_shard(ctx):
         stat = collections.Counter()
         check_direct(txt, pos, rules, stat)
         nt = stat['match'] > 0 and stat['lendiff'] > 0
-        cl = ['direct'] + [k for k in ('match', 'longer', 'across-newline') if stat[k]]
+        cl = ['direct'] + [k for k in ('match', 'longer', 'across-newline') if stat[k]] + (['line-without-&'] if rules[-1][1] is None else [])
         ctx.stats.case(key=(txt, pos, [r[:2] for r in rules]), nontrivial=nt, classes=cl,
                        sample={'text': txt, 'pos': pos, 'lines': [mkline(r) for r in rules]})
 
